@@ -74,6 +74,9 @@ def write(res):
     if level == "other":
         cov["explanation"] = explanation(res, has_proof)
     cov["known_findings_reported"] = res["known_hits"]
+    if res.get("probes"):
+        cov["probes"] = {"what": "concrete scenario scripts accompanying the contracts (the replay scripts of their obligations), run against the real code on every run; bounded, never counted as proved",
+                         "run": len(res["probes"]), "reproduced": [p["name"] for p in res["probes"] if p["reproduced"]]}
     assumptions = [("%s: %s" % (k, CATALOGUE[k])) for k in sorted(CATALOGUE)] if has_proof else []
     assumptions.append("bounded layer: oracle written from the property statement; explores only the stated bound")
     if proof is not None:
